@@ -352,6 +352,25 @@ func (w *World) parseKey(tok string, kind int) (interface{}, error) {
 			return uint64(v), err
 		}
 		return uint(v), err
+	case "ni":
+		// the narrower signed integer types: ni:<bits>:<decimal>
+		v, err := strconv.ParseInt(p[2], 10, 64)
+		switch p[1] {
+		case "8":
+			return int8(v), err
+		case "16":
+			return int16(v), err
+		}
+		return int32(v), err
+	case "nu":
+		v, err := strconv.ParseUint(p[2], 10, 64)
+		switch p[1] {
+		case "8":
+			return uint8(v), err
+		case "16":
+			return uint16(v), err
+		}
+		return uint32(v), err
 	case "s":
 		b, err := unhex(p[1])
 		return string(b), err
@@ -741,6 +760,31 @@ func (w *World) Exec(line string) (res Result) {
 				return 1, nil
 			}
 			return 0, nil
+		}
+		if len(toks) > 5 && toks[5] == "half" {
+			// a coarser order than the builder's: integer keys compared by floor(v/2), so 2k and 2k+1 are equal
+			half := func(a interface{}) int64 {
+				switch v := a.(type) {
+				case int:
+					return int64(v) >> 1
+				case int64:
+					return v >> 1
+				case uint:
+					return int64(v >> 1)
+				case uint64:
+					return int64(v >> 1)
+				}
+				return 0
+			}
+			cfg.KeyCompare = func(a, b interface{}) (int, error) {
+				x, y := half(a), half(b)
+				if x < y {
+					return -1, nil
+				} else if x > y {
+					return 1, nil
+				}
+				return 0, nil
+			}
 		}
 		if _, err := r.LoadMast(ctx, cfg); err != nil {
 			return fail(err)
